@@ -1,5 +1,9 @@
 // C07 — the escape filter neutralises every HTML-significant character.
 //
+// Results are also looked at AFTER further escapes have run (a caller may keep a result): every
+// verified result is verified again after the next two inputs, and multi-value routes hold two or
+// three escaped values in variables / operands / a slice before any of them is checked.
+//
 // Bounded-exhaustive enumeration of input strings (every code point, every byte string of length
 // <= 2, every string of length <= 5/6 over a 10-symbol alphabet of significant / multi-byte /
 // invalid bytes, every pair and triple of already-escaped forms, long strings, non-string values)
@@ -173,6 +177,13 @@ func newEngine() *twig.Engine {
 			must(e.RegisterString(r.name+"-"+f, fmt.Sprintf(r.src, f)))
 		}
 	}
+	for _, m := range multiTpl {
+		for rot := 0; rot < 2; rot++ {
+			n := multiNames(rot)
+			src := strings.NewReplacer("F1", n[0], "F2", n[1], "F3", n[2]).Replace(m.src)
+			must(e.RegisterString(fmt.Sprintf("multi-%s-%d", m.name, rot), src))
+		}
+	}
 	return e
 }
 
@@ -187,7 +198,10 @@ type route struct {
 	core bool
 	// known: id of the open finding whose predicate is "this route" (see known_findings.json)
 	known string
-	run   func(en *env, filter string, v interface{}) (string, error)
+	// direct: the result does not pass through a rendered template's output buffer (ApplyFilter, macro
+	// text); results of any length are kept for the deferred re-verification on these routes
+	direct bool
+	run    func(en *env, filter string, v interface{}) (string, error)
 }
 
 func allRoutes() []route {
@@ -199,7 +213,7 @@ func allRoutes() []route {
 		}})
 	}
 	// the built-in fallback: a render context that has no environment at all / an empty environment
-	rs = append(rs, route{name: "fallback-noenv", core: true, run: func(en *env, f string, v interface{}) (string, error) {
+	rs = append(rs, route{name: "fallback-noenv", core: true, direct: true, run: func(en *env, f string, v interface{}) (string, error) {
 		ctx := twig.NewRenderContext(nil, nil, nil)
 		defer ctx.Release()
 		r, err := ctx.ApplyFilter(f, v)
@@ -212,7 +226,7 @@ func allRoutes() []route {
 		}
 		return s, nil
 	}})
-	rs = append(rs, route{name: "fallback-emptyenv", run: func(en *env, f string, v interface{}) (string, error) {
+	rs = append(rs, route{name: "fallback-emptyenv", direct: true, run: func(en *env, f string, v interface{}) (string, error) {
 		ctx := twig.NewRenderContext(new(twig.Environment), nil, nil)
 		defer ctx.Release()
 		r, err := ctx.ApplyFilter(f, v)
@@ -226,7 +240,7 @@ func allRoutes() []route {
 		return s, nil
 	}})
 	// direct application of the registered filter through a context with the engine's environment
-	rs = append(rs, route{name: "applyfilter-env", run: func(en *env, f string, v interface{}) (string, error) {
+	rs = append(rs, route{name: "applyfilter-env", direct: true, run: func(en *env, f string, v interface{}) (string, error) {
 		ctx := twig.NewRenderContext(en.e().GetEnvironment(), nil, en.e())
 		defer ctx.Release()
 		r, err := ctx.ApplyFilter(f, v)
@@ -256,10 +270,209 @@ func allRoutes() []route {
 			return buf.String(), err
 		}
 	}
-	rs = append(rs, route{name: "macro-text", core: true, run: macroText(true, " ")})
-	rs = append(rs, route{name: "macro-text-tight", run: macroText(true, "")})
-	rs = append(rs, route{name: "macro-text-noenv", core: true, known: "KF-C07-1", run: macroText(false, " ")})
+	rs = append(rs, route{name: "macro-text", core: true, direct: true, run: macroText(true, " ")})
+	rs = append(rs, route{name: "macro-text-tight", direct: true, run: macroText(true, "")})
+	rs = append(rs, route{name: "macro-text-noenv", core: true, direct: true, known: "KF-C07-1", run: macroText(false, " ")})
 	return rs
+}
+
+// ---------------------------------------------------------------------------------------------
+// multi-value routes: two or three values are escaped and every result is HELD (in a variable, as an
+// operand of a concatenation, in a slice of ApplyFilter results) while the following escapes run; the
+// results are looked at only afterwards. The template forms separate the values with a raw '<' of
+// their own, which cannot occur inside a correctly escaped value.
+
+// multiNames gives the filter names of the three positions for rotation rot (0, 1): both names occur
+// in every form, and every position sees both names
+func multiNames(rot int) [3]string {
+	return [3]string{filterNames[rot], filterNames[1-rot], filterNames[rot]}
+}
+
+var multiTpl = []struct {
+	name string
+	n    int
+	src  string // F1 F2 F3 = filter names of the positions
+}{
+	{"set2", 2, "{% set x = a|F1 %}{% set y = b|F2 %}{{ x }}<{{ y }}"},
+	{"set3", 3, "{% set x = a|F1 %}{% set y = b|F2 %}{% set z = c|F3 %}{{ x }}<{{ y }}<{{ z }}"},
+	{"concat3", 3, "{{ (a|F1) ~ '<' ~ (b|F2) ~ '<' ~ (c|F3) }}"},
+	{"macro-set2", 2, "{% macro m(p, q) %}{% set x = p|F1 %}{% set y = q|F2 %}{{ x }}<{{ y }}{% endmacro %}{{ m(a, b) }}"},
+}
+
+type multi struct {
+	name string
+	n    int // number of values used (2 or 3)
+	core bool
+	// both: both name rotations are run for every window also in the quick tier (the routes on which
+	// a result does not pass through a template engine's own output handling of the registered filter);
+	// the others alternate the rotation from one input to the next there
+	both bool
+	run  func(en *env, rot int, v [3]interface{}) ([]string, error)
+}
+
+func splitParts(out string, n int) ([]string, error) {
+	parts := strings.Split(out, "<")
+	if len(parts) != n {
+		return nil, fmt.Errorf("output %s does not consist of %d escaped values separated by the template's own '<' (a raw '<' inside a value, or a value missing)", strconv.QuoteToASCII(clip(out, 200)), n)
+	}
+	return parts, nil
+}
+
+// nodeTree builds, with the exported constructors, the trees of
+//
+//	set3:    {% set x = a|F1 %}{% set y = b|F2 %}{% set z = c|F3 %}{{ x }}<{{ y }}<{{ z }}
+//	concat3: {{ (a|F1) ~ '<' ~ (b|F2) ~ '<' ~ (c|F3) }}
+//
+// so that they can be rendered with a context that has no (or an empty) environment: there the
+// built-in fallback does the escaping.
+func nodeTree(form string, names [3]string) twig.Node {
+	fl := func(v, f string) twig.Node { return twig.NewFilterNode(twig.NewVariableNode(v, 1), f, nil, 1) }
+	if form == "concat3" {
+		cat := func(l, r twig.Node) twig.Node { return twig.NewBinaryNode("~", l, r, 1) }
+		lt := func() twig.Node { return twig.NewLiteralNode("<", 1) }
+		return twig.NewRootNode([]twig.Node{
+			twig.NewPrintNode(cat(cat(cat(cat(fl("a", names[0]), lt()), fl("b", names[1])), lt()), fl("c", names[2])), 1),
+		}, 1)
+	}
+	return twig.NewRootNode([]twig.Node{
+		twig.NewSetNode("x", fl("a", names[0]), 1),
+		twig.NewSetNode("y", fl("b", names[1]), 1),
+		twig.NewSetNode("z", fl("c", names[2]), 1),
+		twig.NewPrintNode(twig.NewVariableNode("x", 1), 1),
+		twig.NewTextNode("<", 1),
+		twig.NewPrintNode(twig.NewVariableNode("y", 1), 1),
+		twig.NewTextNode("<", 1),
+		twig.NewPrintNode(twig.NewVariableNode("z", 1), 1),
+	}, 1)
+}
+
+func allMultis() []multi {
+	var ms []multi
+	for _, m := range multiTpl {
+		m := m
+		ms = append(ms, multi{name: m.name, n: m.n, run: func(en *env, rot int, v [3]interface{}) ([]string, error) {
+			out, err := en.e().Render(fmt.Sprintf("multi-%s-%d", m.name, rot), map[string]interface{}{"a": v[0], "b": v[1], "c": v[2]})
+			if err != nil {
+				return nil, err
+			}
+			return splitParts(out, m.n)
+		}})
+	}
+	// the same through the built-in fallback: node trees rendered with an environment-less context
+	for _, form := range []string{"set3", "concat3"} {
+		for _, ev := range []string{"noenv", "emptyenv"} {
+			form, ev := form, ev
+			ms = append(ms, multi{name: "fallback-" + ev + "-" + form, n: 3, core: form == "set3" && ev == "noenv", both: true, run: func(en *env, rot int, v [3]interface{}) ([]string, error) {
+				var e *twig.Environment
+				if ev == "emptyenv" {
+					e = new(twig.Environment)
+				}
+				ctx := twig.NewRenderContext(e, map[string]interface{}{"a": v[0], "b": v[1], "c": v[2]}, nil)
+				defer ctx.Release()
+				var buf bytes.Buffer
+				if err := nodeTree(form, multiNames(rot)).Render(&buf, ctx); err != nil {
+					return nil, err
+				}
+				return splitParts(buf.String(), 3)
+			}})
+		}
+	}
+	// direct ApplyFilter: three results collected on one context before any of them is looked at
+	for _, ev := range []string{"noenv", "emptyenv", "env"} {
+		ev := ev
+		name := "fallback-" + ev + "-hold3"
+		if ev == "env" {
+			name = "applyfilter-env-hold3"
+		}
+		ms = append(ms, multi{name: name, n: 3, core: ev == "noenv", both: true, run: func(en *env, rot int, v [3]interface{}) ([]string, error) {
+			var ctx *twig.RenderContext
+			switch ev {
+			case "noenv":
+				ctx = twig.NewRenderContext(nil, nil, nil)
+			case "emptyenv":
+				ctx = twig.NewRenderContext(new(twig.Environment), nil, nil)
+			default:
+				ctx = twig.NewRenderContext(en.e().GetEnvironment(), nil, en.e())
+			}
+			defer ctx.Release()
+			names := multiNames(rot)
+			var held [3]interface{}
+			for i := 0; i < 3; i++ {
+				r, err := ctx.ApplyFilter(names[i], v[i])
+				if err != nil {
+					return nil, err
+				}
+				held[i] = r
+			}
+			parts := make([]string, 3)
+			for i, r := range held {
+				s, ok := r.(string)
+				if !ok {
+					return nil, fmt.Errorf("filter result %d is %T, not a string", i, r)
+				}
+				parts[i] = s
+			}
+			return parts, nil
+		}})
+	}
+	return ms
+}
+
+// allRotations: thorough tier — every multi-value route runs both name rotations on every window
+var allRotations bool
+
+// runMulti applies the multi-value routes to the values v whose texts are want and returns the first
+// deviation. seq is the number of the window in its block: where only one name rotation is run
+// (quick tier: the template forms of the registered filter, and everything in the core-only code
+// point blocks) it is rotation seq%2, so that consecutive windows alternate.
+func runMulti(en *env, ms []multi, onlyCore bool, seq int64, v [3]interface{}, want [3]string, renders *int64) *finding {
+	for _, m := range ms {
+		if onlyCore && !m.core {
+			continue
+		}
+		for rot := 0; rot < 2; rot++ {
+			if !allRotations && (onlyCore || !m.both) && int64(rot) != seq%2 {
+				continue
+			}
+			parts, err := m.run(en, rot, v)
+			*renders++
+			names := multiNames(rot)
+			in := strconv.QuoteToASCII(clip(want[0], 100)) + ", " + strconv.QuoteToASCII(clip(want[1], 100))
+			if m.n == 3 {
+				in += ", " + strconv.QuoteToASCII(clip(want[2], 100))
+			}
+			if err != nil {
+				return &finding{m.name, strings.Join(names[:m.n], ","), in, "", "error: " + err.Error()}
+			}
+			for i := 0; i < m.n; i++ {
+				if why := verify(want[i], parts[i]); why != "" {
+					return &finding{m.name, strings.Join(names[:m.n], ","), in, strconv.QuoteToASCII(clip(parts[i], 200)),
+						fmt.Sprintf("value %d of %d (filter %s, all results looked at after the last escape): %s", i+1, m.n, names[i], why)}
+				}
+			}
+		}
+	}
+	return nil
+}
+
+// padding values for the first inputs of a block (a window of three consecutive inputs is not full yet)
+const pad1, pad2 = "<a&", "\"'>"
+
+// held is a result that was verified when it was returned and is verified again after the escapes of
+// the following inputs have run (an escape result must stay what it was: a caller may keep it)
+type held struct{ route, filter, in, out string }
+
+// holdLimit: longer results are kept for re-verification on the direct routes only (memory)
+const holdLimit = 16 << 10
+
+func recheck(hs []held, later int) *finding {
+	for _, h := range hs {
+		if why := verify(h.in, h.out); why != "" {
+			return &finding{h.route, h.filter, strconv.QuoteToASCII(clip(h.in, 200)), strconv.QuoteToASCII(clip(h.out, 200)),
+				fmt.Sprintf("the result was correct when it was returned but is not any more after the escapes that followed it (those of %d further input(s) included) ran: %s", later, why)}
+		}
+	}
+	return nil
 }
 
 // ---------------------------------------------------------------------------------------------
@@ -302,20 +515,23 @@ func features(s string, set map[string]bool) {
 	}
 }
 
-func runBlock(b block, routes []route) *vlib.Outcome {
+func runBlock(b block, routes []route, multis []multi) *vlib.Outcome {
 	en := newEnv()
 	o := &vlib.Outcome{Counters: map[string]int64{}}
 	feat := map[string]bool{}
 	forms := map[string]bool{}
 	var first, known *finding
 	knownID := ""
-	var renders, inputs int64
+	var renders, inputs, rechecks int64
+	var prev1, prev2 []held // verified results of the previous input and of the one before it
+	last1, last2 := pad1, pad2
 	b.gen(func(in string) {
 		if first != nil {
 			return
 		}
 		inputs++
 		features(in, feat)
+		var cur []held
 		for _, r := range routes {
 			if b.onlyCore && !r.core {
 				continue
@@ -330,6 +546,7 @@ func runBlock(b block, routes []route) *vlib.Outcome {
 				} else {
 					why = verify(in, out)
 				}
+				correct := why == ""
 				if why != "" && err == nil && r.known != "" && out == in {
 					// predicate of the open finding (this route) holds and the observation is exactly its
 					// quirk (the text comes out as it went in: the filter was skipped)
@@ -344,6 +561,9 @@ func runBlock(b block, routes []route) *vlib.Outcome {
 					return
 				}
 				outs[k] = out
+				if correct && (r.direct || len(out) <= holdLimit) {
+					cur = append(cur, held{r.name, f, in, out})
+				}
 			}
 			if outs[0] != outs[1] {
 				first = &finding{r.name, "escape vs e", strconv.QuoteToASCII(in), strconv.QuoteToASCII(clip(outs[0], 100) + " vs " + clip(outs[1], 100)), "the two names give different output"}
@@ -358,9 +578,26 @@ func runBlock(b block, routes []route) *vlib.Outcome {
 				}
 			}
 		}
+		// two or three escaped values held at the same time: the window of consecutive inputs
+		if len(multis) > 0 {
+			if first = runMulti(en, multis, b.onlyCore, inputs, [3]interface{}{last2, last1, in}, [3]string{last2, last1, in}, &renders); first != nil {
+				return
+			}
+			last2, last1 = last1, in
+		}
+		// results of the two previous inputs, verified once more now that further escapes have run
+		if first = recheck(prev1, 1); first != nil {
+			return
+		}
+		if first = recheck(prev2, 2); first != nil {
+			return
+		}
+		rechecks += int64(len(prev1) + len(prev2))
+		prev2, prev1 = prev1, cur
 	})
 	o.Counters["renders"] = renders
 	o.Counters["inputs"] = inputs
+	o.Counters["reverified_later"] = rechecks
 	var fs []string
 	for k := range feat {
 		fs = append(fs, k)
@@ -569,7 +806,7 @@ func nonStrings() []nsValue {
 	}
 }
 
-func runNonString(nv nsValue, routes []route) *vlib.Outcome {
+func runNonString(nv nsValue, routes []route, multis []multi) *vlib.Outcome {
 	en := newEnv()
 	o := &vlib.Outcome{Nontrivial: true, Counters: map[string]int64{}}
 	want := nv.want
@@ -582,6 +819,7 @@ func runNonString(nv nsValue, routes []route) *vlib.Outcome {
 		want = w
 	}
 	var renders int64
+	var kept []held
 	knownWhy, knownID := "", ""
 	for _, r := range routes {
 		var outs [2]string
@@ -594,6 +832,7 @@ func runNonString(nv nsValue, routes []route) *vlib.Outcome {
 			} else {
 				why = verify(want, out)
 			}
+			correct := why == ""
 			if why != "" && err == nil && r.known != "" && out == want {
 				if knownWhy == "" {
 					knownWhy = fmt.Sprintf("route %s, filter %s, value %s (text %s): %s; output %s", r.name, f, nv.name, strconv.QuoteToASCII(want), why, strconv.QuoteToASCII(out))
@@ -608,11 +847,29 @@ func runNonString(nv nsValue, routes []route) *vlib.Outcome {
 				return o
 			}
 			outs[k] = out
+			if correct {
+				kept = append(kept, held{r.name, f, want, out})
+			}
 		}
 		if outs[0] != outs[1] {
 			o.Violation = fmt.Sprintf("route %s, value %s: escape gives %q, e gives %q", r.name, nv.name, outs[0], outs[1])
 			return o
 		}
+	}
+	// the value held together with a string and with itself, and every earlier result once more
+	const other = "<x>&"
+	f := runMulti(en, multis, false, 0, [3]interface{}{nv.v(), other, nv.v()}, [3]string{want, other, want}, &renders)
+	if f == nil {
+		f = runMulti(en, multis, false, 1, [3]interface{}{other, nv.v(), other}, [3]string{other, want, other}, &renders)
+	}
+	if f == nil {
+		f = recheck(kept, 0)
+	}
+	if f != nil {
+		o.Violation = fmt.Sprintf("route %s, filter %s, value %s (texts %s): %s; output %s", f.Route, f.Filter, nv.name, f.Input, f.Why, f.Output)
+		o.Detail = f
+		o.Class = "violation:" + f.Route
+		return o
 	}
 	o.Counters["renders"] = renders
 	o.Counters["inputs"] = 1
@@ -639,12 +896,15 @@ func main() {
 		Rule: "every input of the bounded families (all code points alone and inside a?&, all byte strings of length <= 2, all strings of length <= 5 (thorough 6) over " +
 			"{< > & \" ' a é 0xFF ; #}, all pairs and triples of 23 already-escaped forms and fragments, boundary lengths up to 64 KiB, 1 MiB strings, 21 non-string values) " +
 			"x every route (16 template positions, direct ApplyFilter with the engine's / an empty / no environment, macro text with and without environment) x both names; " +
+			"every verified result is kept and verified again after the escapes of the next two inputs have run; every window of three consecutive inputs of a block also goes through 11 multi-value routes " +
+			"that hold two or three escaped values (set variables, concatenation operands, a macro's set variables, collected ApplyFilter results; registered filter and built-in fallback) before any is looked at; " +
 			"a case is one block of inputs (<= 553 strings) on a fresh engine; non-trivial = the block contains a significant character or a byte >= 0x80",
 		Assumptions: []string{
 			"strings longer than 1 MiB + 5 bytes and alphabet strings longer than the bound are not explored",
 			"in the quick tier code points >= U+3000 are swept inside a?& only (not alone) and on one route per escaping mechanism only (print tag = registered filter, ApplyFilter without environment = built-in fallback, macro text with and without environment); the thorough tier sweeps them on all routes",
 			"the text a non-string value is converted to is taken from the statement for scalars, Stringers, byte slices and named strings, and from the unfiltered print tag of the same engine for lists, maps, structs and errors",
 			"input reaches the filter as a context value; string literals written in template source are the subject of C08/C04",
+			"held results: only windows of consecutive inputs of the enumeration order are held together (not all pairs); in the quick tier the template forms of the registered filter and the code point blocks >= U+3000 run one of the two name rotations per window, alternating; results longer than 16 KiB are kept for later re-verification on the direct routes only",
 		},
 		QuickDeadline:    150,
 		ThoroughDeadline: 1200,
@@ -659,19 +919,22 @@ func main() {
 					main = append(main, r)
 				}
 			}
+			multis := allMultis()
+			allRotations = t.Thorough()
 			for _, b := range blocks(t.Thorough()) {
 				b := b
-				t.Case(b.key, func() *vlib.Outcome { return runBlock(b, main) })
-				t.Case(b.key+"#"+side[0].name, func() *vlib.Outcome { return runBlock(b, side) })
+				t.Case(b.key, func() *vlib.Outcome { return runBlock(b, main, multis) })
+				t.Case(b.key+"#"+side[0].name, func() *vlib.Outcome { return runBlock(b, side, nil) })
 			}
 			for _, nv := range nonStrings() {
 				nv := nv
-				t.Case("0-nonstring/"+nv.name, func() *vlib.Outcome { return runNonString(nv, main) })
-				t.Case("0-nonstring/"+nv.name+"#"+side[0].name, func() *vlib.Outcome { return runNonString(nv, side) })
+				t.Case("0-nonstring/"+nv.name, func() *vlib.Outcome { return runNonString(nv, main, multis) })
+				t.Case("0-nonstring/"+nv.name+"#"+side[0].name, func() *vlib.Outcome { return runNonString(nv, side, nil) })
 			}
 		},
 		Extra: func(tier string, cov map[string]interface{}) {
 			cov["routes"] = len(allRoutes())
+			cov["multi_value_routes"] = len(allMultis())
 			cov["filter_names"] = filterNames
 		},
 	})
